@@ -158,7 +158,7 @@ pub fn gen_slot(r: &mut Rng, mode: Mode) -> SlotCfg {
             Elem::F64
         } else {
             // Yf (yielding element type) only makes sense under the baton
-            [Elem::F64, Elem::F32, Elem::Yf][r.weighted(&[6, 1, if mode == Mode::C17 { 3 } else { 0 }])]
+            [Elem::F64, Elem::F32, Elem::Yf, Elem::I64][r.weighted(&[12, 2, if mode == Mode::C17 { 6 } else { 0 }, if kind != Kind::Spline { 1 } else { 0 }])]
         };
         let storage = [Storage::Owned, Storage::View, Storage::Shared, Storage::DataView][r.weighted(&[4, 2, 3, 1])];
         let dimty = [DimTy::Ix1, DimTy::Ix2, DimTy::Ix3, DimTy::Ix4, DimTy::Ix5, DimTy::IxDyn][r.weighted(&[4, 4, 4, if mode == Mode::C17Miri { 0 } else { 2 }, if mode == Mode::C17Miri { 0 } else { 1 }, 4])];
@@ -207,10 +207,25 @@ pub fn gen_slot(r: &mut Rng, mode: Mode) -> SlotCfg {
         let lanes: usize = shape[if two { 2 } else { 1 }..].iter().product();
         let total: usize = shape.iter().product();
         let explicit_x = if long && two { r.chance(1, 2) } else { r.chance(3, 4) };
-        let x = if explicit_x { Some(gen_axis(r, nx, f32ok).into_iter().map(Fb).collect()) } else { None };
+        let int = elem == Elem::I64;
+        let int_axis = |r: &mut Rng, n: usize| -> Vec<f64> {
+            let mut v = vec![];
+            let mut x = r.below(21) as f64 - 10.0;
+            for _ in 0..n {
+                v.push(x);
+                x += r.range(1, 4) as f64;
+            }
+            v
+        };
+        let x = if explicit_x { Some(if int { int_axis(r, nx) } else { gen_axis(r, nx, f32ok) }.into_iter().map(Fb).collect()) } else { None };
         // 2-D: default axes only together (the builder's `new` provides both)
-        let y = if two && explicit_x { Some(gen_axis(r, ny, f32ok).into_iter().map(Fb).collect()) } else { None };
+        let y = if two && explicit_x { Some(if int { int_axis(r, ny) } else { gen_axis(r, ny, f32ok) }.into_iter().map(Fb).collect()) } else { None };
         let mut data = gen_values(r, total, f32ok);
+        if int {
+            for d in data.iter_mut() {
+                *d = (*d * 10.0).round();
+            }
+        }
         let extrapolate = r.chance(1, 2);
         let bc = if kind == Kind::Spline {
             match r.weighted(&[3, 2, 2, 2, 2]) {
@@ -279,7 +294,7 @@ pub fn mutate_slot(r: &mut Rng, base: SlotCfg) -> SlotCfg {
         0 | 1 => {
             // other interior knots, same end points
             let mut ax = c.axis_x();
-            if ax.len() >= 3 {
+            if ax.len() >= 3 && c.elem != Elem::I64 {
                 for i in 1..ax.len() - 1 {
                     let (lo, hi) = (ax[i - 1], ax[i + 1]);
                     let v = lo + (hi - lo) * (0.1 + 0.8 * r.unit());
